@@ -1,140 +1,301 @@
 """C19 - adjust_caption_timing and merge_concurrent_captions.
 
-Observation = per language the list of (start, end, node identities); node identity is the index of the
-node object in the input (so "nodes untouched, in order" is checked by identity and by a field snapshot),
-a node created by the code is -1 (a BREAK) or -2 (anything else).
-Correspondence: extracted model (coq/model/Base.v) vs implementation.
-Property oracle: Coq ok_adjust / ok_merge (coq/spec/SpecBase.v) on the implementation's observation.
+Input   = a heap of Caption objects + per language a list of references into it (so one object can be listed
+          under several languages or several times in one list), built through the public API.
+Observed = per input language the list of (start, end, node values) of the RESULT set: for adjust the set itself
+          (the method returns nothing), for merge the returned set (both in-tree callers use only the return value;
+          the argument is the result only when nothing usable is returned).
+Node values: every BREAK node is -1 (a line break is a line break), every other node is the class of its field
+          values (type, content, start flag, layout) among the input nodes, -2 if it matches no input node.  Whether
+          the very same node OBJECTS are carried is counted as information, not demanded (design/C19.md, decision 3).
+Property oracle: Coq ok_adjust / ok_merge (coq/spec/SpecBase.v) on what the implementation produced, plus
+          "input nodes untouched" (field snapshot) and "same languages afterwards".
+Correspondence: extracted object-level model BaseObj.adjust_objs / value model Base.merge_concurrent vs implementation.
 """
+import math
 from fractions import Fraction
 
 import impl
-from wire import Ok, Err, oracle_batch, r_result, r_q
+from wire import Ok, Err, oracle_batch, oracle1, r_result, r_q
 from pycaption import CaptionSet, CaptionList, Caption, CaptionNode
 from pycaption.base import merge_concurrent_captions
+from pycaption.geometry import Layout
 
 TOL = Fraction(1, 1024)
-LANGS = ["en-US", "fr", "de"]
+LANGS = ["en-US", "fr", "de", "es", "it"]
+STYLES = [{"italics": True}, {"bold": True}, {"underline": True, "color": "red"}]
+LAYOUT = Layout()
+BIG = 2 ** 37          # |t| <= 2^38 keeps the binary64 error of t*skew+offset (skew <= 4) below 2^-10 us
 
 
 def exact(x):
-    if isinstance(x, bool):
-        raise TypeError
+    if isinstance(x, bool) or not isinstance(x, (int, float)):
+        raise TypeError("not a number: %r" % (x,))
     if isinstance(x, int):
         return Fraction(x)
     return Fraction(*x.as_integer_ratio())
 
 
-def gen_langs(rng, for_merge):
-    """abstract input: list of languages, each a list of (start, end, n_nodes)"""
-    langs = []
-    for _ in range(rng.randint(1, 3)):
-        n = rng.choice([0, 1, 2, 3, 4, 5, 6, 8])
-        caps = []
-        t = rng.choice([0, 0, 1, 1000, 123456, 10**6, 3600 * 10**6])
-        while len(caps) < n:
-            d = rng.choice([1, 999, 1000, 40000, 10**6, 2500000, rng.randrange(1, 10**7)])
-            if rng.random() < 0.3:
-                # SCC-like float times
-                s, e = t * 1001 / 1000.0 + 1 / 3.0, (t + d) * 1001 / 1000.0 + 1 / 3.0
+# ------------------------------------------------------------------------------------------------ generator
+def twin(rng, x):
+    """the same number in the other Python type when that is exact (1000 <-> 1000.0)"""
+    if isinstance(x, int) and abs(x) < 2 ** 53:
+        return float(x)
+    if isinstance(x, float) and x == int(x):
+        return int(x)
+    return x
+
+
+def variant(rng, span):
+    s, e = span
+    r = rng.random()
+    if r < 0.12:
+        return (twin(rng, s), e)
+    if r < 0.24:
+        return (s, twin(rng, e))
+    if r < 0.36:
+        return (twin(rng, s), twin(rng, e))
+    return (s, e)
+
+
+def gen_spans(rng, n, for_merge):
+    """n spans; equal spans occur consecutively (runs of every length), NON-consecutively (A B A, A A B A),
+    as int/float twins, next to near misses (only start or only end shared); times of both signs, unsorted now and
+    then, end < start now and then"""
+    seq, pool = [], []
+    t = rng.choice([0, 0, 1, 1000, 123456, 10 ** 6, 3600 * 10 ** 6, -5 * 10 ** 6, BIG])
+    p_same = rng.choice([0.2, 0.45, 0.7]) if for_merge else 0.15
+    long_run = rng.randint(5, 12) if for_merge and rng.random() < 0.12 else 0
+    while len(seq) < n:
+        r = rng.random()
+        if seq and (long_run or r < p_same):
+            span = variant(rng, seq[-1])
+            long_run = max(0, long_run - 1)
+        elif pool and r < p_same + 0.15:
+            span = variant(rng, rng.choice(pool))                      # revisit an earlier span
+        elif seq and r < p_same + 0.27:
+            s, e = seq[-1]
+            k = rng.randrange(4)
+            span = [(s, e + 1), (s + 1, e), (s, e + 0.5), (s - 1, e - 1)][k]
+        else:
+            d = rng.choice([1, 999, 1000, 40000, 10 ** 6, 2500000, rng.randrange(1, 10 ** 7)])
+            k = rng.random()
+            if k < 0.3:
+                s, e = t * 1001 / 1000.0 + 1 / 3.0, (t + d) * 1001 / 1000.0 + 1 / 3.0     # SCC-like floats
+            elif k < 0.35:
+                s, e = t + d, t                                                           # end before start
             else:
                 s, e = t, t + d
-            run = rng.choice([1, 1, 1, 2, 2, 3, 4]) if for_merge else rng.choice([1, 1, 2])
-            for _ in range(run):
-                caps.append((s, e, rng.randint(1, 4)))
-            # sometimes the next caption shares only the start, or only the end
+            span = (s, e)
+            t = t + d + rng.choice([0, 0, 1, 1000, 5 * 10 ** 6, -2 * d if rng.random() < 0.2 else 7])
+        seq.append(span)
+        pool.append(span)
+    return seq
+
+
+def gen_nodes(rng, counter):
+    nn = rng.choice([1, 1, 1, 2, 2, 3, 3, 4, 5, 8])
+    shape = rng.random()
+    nodes = []
+    for j in range(nn):
+        if shape < 0.35:                      # the classic T B T B pattern
+            kind = "B" if j % 2 else "T"
+        elif shape < 0.45:                    # starts with a break
+            kind = "B" if j == 0 else rng.choice("TTBS")
+        elif shape < 0.52:                    # only breaks
+            kind = "B"
+        else:
+            kind = rng.choice("TTTTBBS")
+        if kind == "T":
             r = rng.random()
-            if r < 0.15:
-                caps.append((s, e + 1, rng.randint(1, 3)))
-            elif r < 0.3:
-                caps.append((s + 1 if isinstance(s, int) else s + 0.5, e, rng.randint(1, 3)))
-            t = t + d + rng.choice([0, 0, 1, 1000, 5 * 10**6])
-        langs.append(caps[:max(n, 0)] if n else [])
-    # API-built sets may list the SAME Caption objects under two languages: an aliased language is the same
-    # Python list object as an earlier one (build() then reuses the Caption objects)
-    if len(langs) < 3 and rng.random() < 0.2:
-        langs.append(langs[rng.randrange(len(langs))])
-    return langs
+            if r < 0.08:
+                nodes.append(["T", "dup", 0])         # equal-valued text nodes exist
+            elif r < 0.11:
+                nodes.append(["T", "", 0])
+            else:
+                counter[0] += 1
+                nodes.append(["T", "t%d" % counter[0], 1 if rng.random() < 0.1 else 0])
+        elif kind == "B":
+            nodes.append(["B", 1 if rng.random() < 0.15 else 0])       # 1: break carrying a layout
+        else:
+            nodes.append(["S", rng.random() < 0.5, rng.randrange(len(STYLES))])
+    return nodes
 
 
-def alias_of(langs):
-    """alias_of(langs)[i] = index of the first language that is the same list object (i itself if none)"""
-    return [next(j for j in range(i + 1) if langs[j] is langs[i]) for i in range(len(langs))]
+def gen_case(rng, for_merge):
+    objs, langs = [], []
+    counter = [0]
+    for _ in range(rng.choice([1, 1, 2, 2, 3])):
+        n = rng.choice([0, 1, 2, 3, 4, 5, 6, 8, 12, 20])
+        refs = []
+        for (s, e) in gen_spans(rng, n, for_merge):
+            refs.append(len(objs))
+            objs.append([s, e, gen_nodes(rng, counter), False])
+        langs.append(refs)
+    r = rng.random()
+    if r < 0.15 and len(langs) < 4:
+        langs.append(list(langs[rng.randrange(len(langs))]))           # a language listing the same objects
+    elif r < 0.30 and objs:
+        k = rng.randrange(len(objs))                                   # one object listed once more somewhere
+        li = rng.randrange(len(langs))
+        langs[li].insert(rng.randint(0, len(langs[li])), k)
+    elif r < 0.36 and objs:
+        li = rng.randrange(len(langs))                                 # the same object twice in a row
+        if langs[li]:
+            p = rng.randrange(len(langs[li]))
+            langs[li].insert(p, langs[li][p])
+    if for_merge and objs and rng.random() < 0.04:
+        # node list emptied after construction: outside the domain (Caption() forbids it), compared for information
+        objs[rng.randrange(len(objs))][3] = True
+    return {"objs": objs, "langs": langs}
 
 
-def with_alias(langs, alias):
-    out = []
-    for i, l in enumerate(langs):
-        out.append(out[alias[i]] if alias and alias[i] < i else l)
-    return out
+SKEWS = [1.0, 0.5, 2.0, 4.0, 0.25, 1.5, 1.1, 0.999, 1.001, 3.75, 0.001]
+OFFSETS = [0, 1, -1, 1000, -1000, 10 ** 6, -10 ** 6, -3600 * 10 ** 6, 5 * 10 ** 6, -123456, 0.5, -2500000.25]
 
 
-def build(langs):
-    ids = {}
-    snaps = []
-    d = {}
-    k = 0
-    al = alias_of(langs)
-    built = []
-    for li, caps in enumerate(langs):
-        if al[li] < li:
-            built.append(built[al[li]])
-            d[LANGS[li]] = CaptionList(list(built[al[li]]))
-            continue
-        cl = []
-        for (s, e, nn) in caps:
-            nodes = []
-            for j in range(nn):
-                if j % 2 == 1:
-                    node = CaptionNode.create_break()
-                else:
-                    node = CaptionNode.create_text("t%d" % k)
-                ids[id(node)] = k
-                snaps.append((node, (node.type_, node.content, node.start, node.layout_info, node.position)))
-                nodes.append(node)
-                k += 1
-            cl.append(Caption(s, e, nodes))
-        built.append(cl)
-        d[LANGS[li]] = CaptionList(cl)
-    return CaptionSet(d), ids, snaps
+def gen_skew(rng):
+    r = rng.random()
+    if r < 0.35:
+        return rng.choice(SKEWS)
+    if r < 0.6:
+        j = rng.randint(0, 6)
+        return rng.randint(1, 4 * 2 ** j) / float(2 ** j)             # dyadic in (0, 4]
+    if r < 0.9:
+        return rng.uniform(1e-3, 4.0)                                  # arbitrary binary64 in (0, 4]
+    return rng.choice([1, 2, 3, 4])                                    # a Python int
 
 
-def observe(cs, ids, nlangs):
-    out = []
-    for li in range(nlangs):
-        caps = cs.get_captions(LANGS[li])
-        lang = []
-        for c in caps:
-            nodes = []
-            for n in c.nodes:
-                if id(n) in ids:
-                    nodes.append(ids[id(n)])
-                else:
-                    nodes.append(-1 if (n.type_ == CaptionNode.BREAK and n.content is None) else -2)
-            lang.append([exact(c.start), exact(c.end), nodes])
-        out.append(lang)
-    return out
+def gen_offset(rng, case, skew):
+    r = rng.random()
+    if r < 0.3:
+        return rng.choice(OFFSETS)
+    if r < 0.5:
+        return rng.randrange(-10 ** 7, 10 ** 7)
+    if r < 0.62:
+        return rng.uniform(-10 ** 7, 10 ** 7)
+    if not case["objs"]:
+        return 0
+    t = rng.choice(case["objs"])[0]                                    # boundary for an arbitrary caption
+    base = -(t * skew)
+    return base + rng.choice([0, 0, 0, 1, -1, 0.0005, -0.0005, 2.0 ** -30, -2.0 ** -30, 1e-9, -1e-9, 0.5, -0.5])
 
 
-def nodes_untouched(snaps):
-    return all((n.type_, n.content, n.start, n.layout_info, n.position) == s for n, s in snaps)
+# ------------------------------------------------------------------------------------------------ build / observe
+def make_node(d):
+    if d[0] == "T":
+        return CaptionNode.create_text(d[1], layout_info=LAYOUT if d[2] else None)
+    if d[0] == "B":
+        return CaptionNode.create_break(layout_info=LAYOUT if d[1] else None)
+    return CaptionNode.create_style(bool(d[1]), dict(STYLES[d[2]]))
 
 
-def wire_langs(langs):
-    """abstract input -> wire value with identities assigned exactly as build() does"""
-    out = []
-    k = 0
-    al = alias_of(langs)
-    for li, caps in enumerate(langs):
-        if al[li] < li:
-            out.append(out[al[li]])
-            continue
-        l = []
-        for (s, e, nn) in caps:
-            l.append([exact(s), exact(e), list(range(k, k + nn))])
-            k += nn
-        out.append(l)
-    return out
+def node_key(n):
+    if n.type_ == CaptionNode.BREAK:
+        return "B"
+    c = n.content
+    if isinstance(c, dict):
+        c = tuple(sorted(c.items()))
+    return (n.type_, c, n.start, n.layout_info is not None)
+
+
+def snap(n):
+    c = n.content
+    return (n.type_, dict(c) if isinstance(c, dict) else c, n.start, n.layout_info, n.position)
+
+
+class Built:
+    def __init__(self, case):
+        self.case = case
+        self.classes = {"B": -1}
+        self.node_ids = set()
+        self.snaps = []
+        self.caps = []
+        self.vals = []         # wire heap: [start, end, [node values]]
+        for (s, e, nds, emptied) in case["objs"]:
+            nodes = [make_node(d) for d in nds]
+            vals = []
+            for n in nodes:
+                k = node_key(n)
+                if k not in self.classes:
+                    self.classes[k] = len(self.classes) - 1
+                vals.append(self.classes[k])
+                self.node_ids.add(id(n))
+                self.snaps.append((n, snap(n)))
+            c = Caption(s, e, nodes)
+            if emptied:
+                c.nodes = []
+                vals = []
+            self.caps.append(c)
+            self.vals.append([exact(s), exact(e), vals])
+        self.nlangs = len(case["langs"])
+        self.cs = CaptionSet({LANGS[li]: CaptionList([self.caps[k] for k in refs])
+                              for li, refs in enumerate(case["langs"])})
+        self.copied = 0
+
+    def value_langs(self):
+        return [[self.vals[k] for k in refs] for refs in self.case["langs"]]
+
+    def observe(self, cs):
+        out = []
+        for li in range(self.nlangs):
+            lang = []
+            for c in cs.get_captions(LANGS[li]):
+                vals = []
+                for n in c.nodes:
+                    vals.append(self.classes.get(node_key(n), -2))
+                    if n.type_ != CaptionNode.BREAK and id(n) not in self.node_ids:
+                        self.copied += 1
+                lang.append([exact(c.start), exact(c.end), vals])
+            out.append(lang)
+        return out
+
+    def untouched(self):
+        return all(snap(n) == s for n, s in self.snaps)
+
+    def same_languages(self, cs):
+        return sorted(cs.get_languages()) == sorted(LANGS[:self.nlangs])
+
+
+def aliased(case):
+    seen = set()
+    for refs in case["langs"]:
+        for k in refs:
+            if k in seen:
+                return True
+            seen.add(k)
+    return False
+
+
+def in_domain(case):
+    return not any(o[3] for o in case["objs"])
+
+
+def do_adjust(case, skew, off):
+    b = Built(case)
+    r = impl.call(lambda: b.cs.adjust_caption_timing(offset=off, rate_skew=skew))
+    if isinstance(r, Err):
+        return b, r
+    o = impl.call(lambda: b.observe(b.cs))
+    return b, o
+
+
+def do_merge(case):
+    b = Built(case)
+    r = impl.call(lambda: merge_concurrent_captions(b.cs))
+    info = {"returned_argument": False, "langs_ok": True}
+    if isinstance(r, Err):
+        return b, r, r, info
+    res1 = r.v if isinstance(r.v, CaptionSet) else b.cs
+    info["returned_argument"] = res1 is b.cs
+    o1 = impl.call(lambda: b.observe(res1))
+    info["langs_ok"] = b.same_languages(res1)
+    r2 = impl.call(lambda: merge_concurrent_captions(res1))
+    if isinstance(r2, Err):
+        return b, o1, r2, info
+    res2 = r2.v if isinstance(r2.v, CaptionSet) else res1
+    o2 = impl.call(lambda: b.observe(res2))
+    return b, o1, o2, info
 
 
 def dec_langs(x):
@@ -153,29 +314,129 @@ def close(a, b):
     return True
 
 
-SKEWS = [1.0, 0.5, 2.0, 4.0, 0.25, 1.5, 1.1, 0.999, 1.001, 3.75, 0.001]
-OFFSETS = [0, 1, -1, 1000, -1000, 10**6, -10**6, -3600 * 10**6, 5 * 10**6, -123456, 0.5, -2500000.25]
+def adjust_requests(b, skew, off, o):
+    sk, of = exact(skew), exact(off)
+    heap = b.vals
+    return [(1904, [sk, of, heap, b.case["langs"]]),
+            (1901, [sk, of, b.value_langs(), o.v if isinstance(o, Ok) else []]),
+            (1905, [sk, of, heap, b.case["langs"]])]
 
 
-def do_adjust(langs, skew, off):
-    cs, ids, snaps = build(langs)
-    r = impl.call(lambda: cs.adjust_caption_timing(offset=off, rate_skew=skew))
-    if isinstance(r, Err):
-        return r, True
-    return Ok(observe(cs, ids, len(langs))), nodes_untouched(snaps)
+def judge_adjust(case, skew, off, b, o, model, ok, prefix):
+    """-> (violation dict or None, disagreement dict or None, near)"""
+    base = {"op": "adjust", "input": case, "skew": skew, "offset": off, "replay": "adjust",
+            "shape": "shared-caption-objects" if aliased(case) else "distinct-objects"}
+    if isinstance(o, Err):
+        return dict(base, kind="adjust-raises", what=f"adjust_caption_timing(offset={off!r}, rate_skew={skew!r}) "
+                    f"raised {impl.ERR_NAMES.get(o.code, o.code)}"), None, False
+    base["impl_obs"] = o.v
+    near = ok[1] == 1
+    if ok[0] != 1:
+        twice = aliased(case) and close(dec_langs(prefix), o.v)
+        return dict(base, kind="adjust-applied-once-per-listing" if twice else "adjust-wrong",
+                    what=f"adjust_caption_timing(offset={off!r}, rate_skew={skew!r}): result is not "
+                         "'t -> t*skew+offset, order and nodes kept, exactly the negative new starts dropped'"
+                         + (" - it is what applying the map once per LISTING of a shared Caption object gives"
+                            if twice else "")), None, near
+    if not b.same_languages(b.cs):
+        return dict(base, kind="adjust-changes-languages",
+                    what=f"languages after adjust: {b.cs.get_languages()!r}"), None, near
+    if not b.untouched():
+        return dict(base, kind="adjust-modifies-nodes", what="adjust_caption_timing modified a node"), None, near
+    if not near and not close(dec_langs(model), o.v):
+        return None, {"op": "adjust", "input": case, "skew": skew, "offset": off, "impl": o.v,
+                      "model": dec_langs(model)}, near
+    return None, None, near
 
 
-def do_merge(langs):
-    cs, ids, snaps = build(langs)
-    r = impl.call(lambda: merge_concurrent_captions(cs))
-    if isinstance(r, Err):
-        return r, r, True
-    o1 = observe(cs, ids, len(langs))
-    r2 = impl.call(lambda: merge_concurrent_captions(cs))
-    if isinstance(r2, Err):
-        return Ok(o1), r2, True
-    o2 = observe(cs, ids, len(langs))
-    return Ok(o1), Ok(o2), nodes_untouched(snaps)
+def judge_merge(case, b, o1, o2, info, model, ok, ok_first):
+    base = {"op": "merge", "input": case, "replay": "merge",
+            "shape": "shared-caption-objects" if aliased(case) else "distinct-objects",
+            "impl_obs": [o1.v if isinstance(o1, Ok) else repr(o1), o2.v if isinstance(o2, Ok) else repr(o2)]}
+    if isinstance(o1, Err) or isinstance(o2, Err):
+        which = "first" if isinstance(o1, Err) else "second"
+        e = o1 if isinstance(o1, Err) else o2
+        return dict(base, kind="merge-raises", what=f"merge_concurrent_captions raised "
+                    f"{impl.ERR_NAMES.get(e.code, e.code)} on the {which} call"), None
+    if ok != 1:
+        if ok_first == 1:
+            return dict(base, kind="merge-not-idempotent", what="merging the merged set again changed it"), None
+        return dict(base, kind="merge-wrong", what="merge_concurrent_captions: the returned set is not 'every "
+                    "maximal run of consecutive equal spans joined (nodes in order, separated by line breaks), "
+                    "every other caption as it was'"), None
+    if not info["langs_ok"]:
+        return dict(base, kind="merge-changes-languages", what="languages differ after merge"), None
+    if not b.untouched():
+        return dict(base, kind="merge-modifies-nodes", what="merge_concurrent_captions modified an input node"), None
+    mm = r_result(model, dec_langs)
+    if not (isinstance(mm, Ok) and mm.v == o1.v):
+        return None, {"op": "merge", "input": case, "impl": o1.v, "model": repr(mm)}
+    return None, None
+
+
+# ------------------------------------------------------------------------------------------------ shrinking
+def shrinks(case):
+    objs, langs = case["objs"], case["langs"]
+    for li in range(len(langs)):
+        if len(langs) > 1:
+            yield {"objs": objs, "langs": langs[:li] + langs[li + 1:]}
+    for li in range(len(langs)):
+        for p in range(len(langs[li])):
+            yield {"objs": objs, "langs": langs[:li] + [langs[li][:p] + langs[li][p + 1:]] + langs[li + 1:]}
+    for k, o in enumerate(objs):
+        if len(o[2]) > 1:
+            for j in range(len(o[2])):
+                o2 = [o[0], o[1], o[2][:j] + o[2][j + 1:], o[3]]
+                yield {"objs": objs[:k] + [o2] + objs[k + 1:], "langs": langs}
+
+
+def shrink(case, fails, budget=150):
+    cur = case
+    progress = True
+    while progress and budget > 0:
+        progress = False
+        for cand in shrinks(cur):
+            budget -= 1
+            if budget <= 0:
+                break
+            try:
+                if fails(cand):
+                    cur = cand
+                    progress = True
+                    break
+            except Exception:  # noqa
+                pass
+    return cur
+
+
+def compact(case):
+    """drop unreferenced objects"""
+    used = sorted({k for refs in case["langs"] for k in refs})
+    ren = {k: i for i, k in enumerate(used)}
+    return {"objs": [case["objs"][k] for k in used], "langs": [[ren[k] for k in refs] for refs in case["langs"]]}
+
+
+def eval_adjust(case, skew, off):
+    b, o = do_adjust(case, skew, off)
+    reqs = adjust_requests(b, skew, off, o)
+    m, ok, pre = oracle_batch(reqs)
+    return judge_adjust(case, skew, off, b, o, m, ok, pre)
+
+
+def merge_requests(b, o1, o2):
+    vl = b.value_langs()
+    return [(1902, vl), (1903, [vl, o1, o2]), (1903, [vl, o1, o1])]
+
+
+def eval_merge(case):
+    b, o1, o2, info = do_merge(case)
+    m, ok, okf = oracle_batch(merge_requests(b, o1, o2))
+    return judge_merge(case, b, o1, o2, info, m, ok, okf)
+
+
+# ------------------------------------------------------------------------------------------------ run
+def bump(d, k, n=1):
+    d[k] = d.get(k, 0) + n
 
 
 def run(ctx):
@@ -183,107 +444,138 @@ def run(ctx):
     res = {"evaluations": 0, "nontrivial": set(), "violations": [], "disagreements": [], "distribution": {},
            "streams": 2, "notes": []}
     dist = res["distribution"]
+    shrunk_kinds = set()
+
+    def report(v, evaluate):
+        """evaluate(case) -> violation dict or None; the first violation of every kind is shrunk"""
+        if v["kind"] not in shrunk_kinds and len(shrunk_kinds) < 6:
+            shrunk_kinds.add(v["kind"])
+            kind = v["kind"]
+            small = compact(shrink(v["input"], lambda c: (evaluate(c) or {}).get("kind") == kind))
+            v2 = evaluate(small)
+            if v2 and v2.get("kind") == kind:
+                v = dict(v2, original_input=v["input"])
+        res["violations"].append(v)
+
     # ---------------- adjust --------------------------------------------------------------
     cases = []
-    for i in range(ctx.n(1500, 40000)):
-        langs = gen_langs(rng, False)
-        skew = SKEWS[i % len(SKEWS)] if i % 3 else rng.choice(SKEWS)
-        off = rng.choice(OFFSETS) if i % 5 else -int(exact(langs[0][0][0] if langs[0] else 0) * Fraction(skew))
-        cases.append((langs, skew, off))
-    obs = [do_adjust(*c) for c in cases]
-    reqs_m = [(1900, [exact(sk), exact(off), wire_langs(l)]) for (l, sk, off) in cases]
-    reqs_ok = [(1901, [exact(sk), exact(off), wire_langs(l), o.v if isinstance(o, Ok) else []])
-               for (l, sk, off), (o, _) in zip(cases, obs)]
-    models = oracle_batch(reqs_m)
-    oks = oracle_batch(reqs_ok)
-    near = 0
-    for (langs, skew, off), (o, untouched), m, ok in zip(cases, obs, models, oks):
+    for i in range(ctx.n(1300, 30000)):
+        case = gen_case(rng, False)
+        skew = gen_skew(rng)
+        cases.append((case, skew, gen_offset(rng, case, skew)))
+    ran = [do_adjust(*c) for c in cases]
+    reqs = []
+    for (case, skew, off), (b, o) in zip(cases, ran):
+        reqs.extend(adjust_requests(b, skew, off, o))
+    resp = oracle_batch(reqs)
+    for i, ((case, skew, off), (b, o)) in enumerate(zip(cases, ran)):
+        m, ok, pre = resp[3 * i:3 * i + 3]
         res["evaluations"] += 1
-        key = ("adjust", repr(langs), skew, off)
-        if isinstance(o, Err):
-            res["violations"].append({"kind": "adjust-raises", "what": f"adjust_caption_timing raised {o}",
-                                      "alias": alias_of(langs), "op": "adjust", "input": langs, "skew": skew, "offset": off})
-            continue
-        if ok[1] == 1:
-            near += 1
-            continue
-        n_in = sum(len(l) for l in langs)
-        n_out = sum(len(l) for l in o.v)
-        if skew != 1.0 or 0 < n_out < n_in:
-            res["nontrivial"].add(key)
-        shared = alias_of(langs) != list(range(len(langs)))
-        dist["adjust_sets_with_shared_caption_objects"] = dist.get("adjust_sets_with_shared_caption_objects", 0) + shared
-        if ok[0] != 1 or not untouched:
-            res["violations"].append({
-                "alias": alias_of(langs), "shape": "languages-share-caption-objects" if shared else "distinct-objects",
-                "kind": ("adjust-wrong:languages-share-caption-objects" if shared else "adjust-wrong")
-                if ok[0] != 1 else "adjust-modifies-nodes",
-                "what": f"adjust_caption_timing(offset={off}, rate_skew={skew}) result differs from t*skew+offset / "
-                        f"drop-negative-starts" if ok[0] != 1 else "adjust modified a node",
-                "op": "adjust", "input": langs, "skew": skew, "offset": off, "impl_obs": o.v})
-        elif not close(dec_langs(m), o.v):
-            res["disagreements"].append({"op": "adjust", "input": langs, "skew": skew, "offset": off,
-                                         "impl": o.v, "model": dec_langs(m)})
-    dist["adjust_cases"] = len(cases)
-    dist["adjust_near_threshold_excluded"] = near
+        v, d, near = judge_adjust(case, skew, off, b, o, m, ok, pre)
+        bump(dist, "adjust_cases")
+        bump(dist, "adjust_sets_with_shared_caption_objects", int(aliased(case)))
+        bump(dist, "adjust_cases_with_an_optional_caption(|x|<=slack, still judged)", int(near))
+        bump(dist, "adjust_int_skew", int(isinstance(skew, int)))
+        if isinstance(o, Ok):
+            n_in = sum(len(l) for l in case["langs"])
+            n_out = sum(len(l) for l in o.v)
+            if skew != 1 or 0 < n_out < n_in:
+                res["nontrivial"].add(("adjust", repr(case), skew, off))
+            bump(dist, "adjust_some_but_not_all_dropped", int(0 < n_out < n_in))
+            bump(dist, "adjust_all_dropped", int(n_in > 0 and n_out == 0))
+            zero = any(exact(case["objs"][k][0]) * exact(skew) + exact(off) == 0 for refs in case["langs"] for k in refs)
+            bump(dist, "adjust_new_start_exactly_zero", int(zero))
+        if v:
+            report(v, lambda c, skew=skew, off=off: eval_adjust(c, skew, off)[0])
+        elif d:
+            res["disagreements"].append(d)
+    sample_adjust = {"op": "adjust", "input": cases[0][0], "skew": cases[0][1], "offset": cases[0][2]}
+
     # ---------------- merge ---------------------------------------------------------------
-    cases = [gen_langs(rng, True) for _ in range(ctx.n(1500, 40000))]
-    obs = [do_merge(l) for l in cases]
-    reqs_m = [(1902, wire_langs(l)) for l in cases]
-    reqs_ok = [(1903, [wire_langs(l), o1, o2]) for l, (o1, o2, _) in zip(cases, obs)]
-    models = oracle_batch(reqs_m)
-    oks = oracle_batch(reqs_ok)
+    cases = [gen_case(rng, True) for _ in range(ctx.n(1300, 30000))]
+    ran = [do_merge(c) for c in cases]
+    reqs = []
+    for case, (b, o1, o2, info) in zip(cases, ran):
+        reqs.extend(merge_requests(b, o1, o2))
+    resp = oracle_batch(reqs)
     runlens = {}
-    for langs, (o1, o2, untouched), m, ok in zip(cases, obs, models, oks):
+    for i, (case, (b, o1, o2, info)) in enumerate(zip(cases, ran)):
+        m, ok, okf = resp[3 * i:3 * i + 3]
         res["evaluations"] += 1
-        maxrun = 0
-        for caps in langs:
+        bump(dist, "merge_cases")
+        bump(dist, "merge_sets_with_shared_caption_objects", int(aliased(case)))
+        bump(dist, "merge_returned_the_argument_set", int(info["returned_argument"]))
+        bump(dist, "merge_nodes_copied_not_identical(info)", b.copied)
+        maxrun, revisit, twins, lead_break, styled = 0, False, False, False, False
+        for refs in case["langs"]:
             r = 1
-            for a, b in zip(caps, caps[1:]):
-                if (a[0], a[1]) == (b[0], b[1]):
+            spans = [(case["objs"][k][0], case["objs"][k][1]) for k in refs]
+            for j, (a, c) in enumerate(zip(spans, spans[1:])):
+                if a == c:
                     r += 1
                     maxrun = max(maxrun, r)
+                    twins = twins or (type(a[0]), type(a[1])) != (type(c[0]), type(c[1]))
                 else:
                     r = 1
-        runlens[maxrun] = runlens.get(maxrun, 0) + 1
+                    revisit = revisit or c in spans[:j + 1]
+            for k in refs:
+                nds = case["objs"][k][2]
+                lead_break = lead_break or (nds and nds[0][0] == "B")
+                styled = styled or any(d[0] == "S" for d in nds)
+        key = min(maxrun, 13)
+        runlens[key] = runlens.get(key, 0) + 1
+        bump(dist, "merge_equal_span_revisited_non_adjacently", int(revisit))
+        bump(dist, "merge_run_with_int_float_twins", int(twins))
+        bump(dist, "merge_caption_starting_with_break", int(bool(lead_break)))
+        bump(dist, "merge_caption_with_style_nodes", int(styled))
         if maxrun >= 2:
-            res["nontrivial"].add(("merge", repr(langs)))
-        shared = alias_of(langs) != list(range(len(langs)))
-        dist["merge_sets_with_shared_caption_objects"] = dist.get("merge_sets_with_shared_caption_objects", 0) + shared
-        if ok != 1 or not untouched:
-            res["violations"].append({
-                "alias": alias_of(langs), "shape": "languages-share-caption-objects" if shared else "distinct-objects",
-                "kind": "merge-wrong" if ok != 1 else "merge-modifies-nodes",
-                "what": "merge_concurrent_captions result is not 'join every maximal run' / not idempotent / raised",
-                "op": "merge", "input": langs,
-                "impl_obs": [o1.v if isinstance(o1, Ok) else repr(o1), o2.v if isinstance(o2, Ok) else repr(o2)]})
+            res["nontrivial"].add(("merge", repr(case)))
+        if not in_domain(case):
+            # node lists emptied after construction: outside the statement's domain (Caption() forbids it);
+            # the model's Ok/Err outcome is compared for information only
+            bump(dist, "merge_out_of_domain_emptied_node_list(not judged)")
+            mm = r_result(m, dec_langs)
+            same = (isinstance(mm, Err) and isinstance(o1, Err)) or (isinstance(mm, Ok) and isinstance(o1, Ok) and mm.v == o1.v)
+            bump(dist, "merge_out_of_domain_model_differs(info)", int(not same))
+            bump(dist, "merge_out_of_domain_raises", int(isinstance(o1, Err)))
             continue
-        mm = r_result(m, dec_langs)
-        if not (isinstance(mm, Ok) and isinstance(o1, Ok) and mm.v == o1.v):
-            res["disagreements"].append({"op": "merge", "input": langs, "impl": repr(o1), "model": repr(mm)})
-    dist["merge_cases"] = len(cases)
-    dist["merge_max_run_length_histogram"] = runlens
-    res["rule"] = ("random multi-language caption lists (0-8 captions, int and SCC-like float times, runs of 1-4 equal "
-                   "spans at every position, near-miss spans sharing only start or only end); skews %r; offsets of both "
-                   "signs incl. the exact negative of the first start. Non-trivial: adjust with skew != 1 or with some "
-                   "but not all captions dropped; merge with a run of length >= 2. Distinct inputs counted." % (SKEWS,))
-    res["samples"] = [{"op": "adjust", "input": cases[0], "skew": 1.1, "offset": -1000},
-                      {"op": "merge", "input": cases[1]}]
-    res["clauses"] = {"theorem": ["adjust = filter(start' >= 0) o map(affine), order and nodes kept",
-                                  "merge = map join (maximal runs); idempotent; singletons unchanged; never raises"],
-                      "correspondence_only": ["binary64 rounding of t*skew+offset (model is exact, tolerance 2^-10 us)"]}
+        v, d = judge_merge(case, b, o1, o2, info, m, ok, okf)
+        if v:
+            report(v, lambda c: eval_merge(c)[0] if in_domain(c) else None)
+        elif d:
+            res["disagreements"].append(d)
+    dist["merge_max_run_length_histogram(13 = 13 or more)"] = runlens
+    res["rule"] = ("random caption sets built through the API: 1-4 languages, 0-20 captions each (plus shared objects), "
+                   "int and float times of both signs, runs of equal spans of length 1-13+ at every position, equal spans "
+                   "revisited non-adjacently (A B A), int/float twins (1000 vs 1000.0), near misses sharing only start or "
+                   "only end, end < start; 1-8 nodes per caption: text, breaks (leading, trailing, only breaks, with layout), "
+                   "style on/off nodes; Caption objects shared between languages or listed twice. Skews: fixed list, "
+                   "random dyadic and arbitrary binary64 in (0,4], ints; offsets of both signs, random, and the exact / "
+                   "nudged negative of a random caption's start*skew. Non-trivial: adjust with skew != 1 or with some but "
+                   "not all captions dropped; merge with a run of length >= 2. Distinct inputs counted.")
+    res["samples"] = [sample_adjust, {"op": "merge", "input": cases[0]}, {"op": "merge", "input": cases[1]}]
+    res["clauses"] = {
+        "theorem": [
+            "model meets the oracle: ok_adjust sk off ls (adjust sk off ls) = true, all rational skews/offsets, several languages",
+            "object level: the repaired loop on a heap with shared Caption objects = the value model, every alias structure",
+            "merge_concurrent meets ok_merge (runs joined, idempotent) for several languages, under nodes_nonempty "
+            "(every caption has >= 1 node - what Caption() enforces); without it the only exception is Caption()'s refusal",
+            "adjust = filter(start' >= 0) o map(affine) with order and nodes kept; merge = map join (maximal runs); "
+            "a list without adjacent equal spans is returned unchanged"],
+        "correspondence_only": [
+            "binary64 rounding of t*skew+offset (model exact in Q; values within 2^-10 us; membership free only for "
+            "0 < |x| <= (|t*skew|+|off|)*2^-50)",
+            "the returned set is the one judged for merge; in-place update of the argument is counted, not demanded",
+            "node values instead of node object identity (copies counted as information); input node fields unchanged",
+            "set of languages unchanged by both operations",
+            "aliasing for merge (merge never writes to a Caption object, so the value model is run on the dereferenced lists)"]}
     return res
 
 
 def replay(ctx, rec):
-    from wire import oracle1
-    langs = with_alias([[tuple(c) for c in l] for l in rec["input"]], rec.get("alias"))
+    case = rec["input"]
     if rec.get("op") == "adjust":
-        o, untouched = do_adjust(langs, rec["skew"], rec["offset"])
-        if isinstance(o, Err):
-            return True, repr(o)
-        ok = oracle1(1901, [exact(rec["skew"]), exact(rec["offset"]), wire_langs(langs), o.v])
-        return (ok[0] != 1 and ok[1] != 1) or not untouched, o.v
-    o1, o2, untouched = do_merge(langs)
-    ok = oracle1(1903, [wire_langs(langs), o1, o2])
-    return ok != 1 or not untouched, repr(o1)
+        v, d, near = eval_adjust(case, rec["skew"], rec["offset"])
+    else:
+        v, d = eval_merge(case)
+    return v is not None, (v or {}).get("what", "no violation")
